@@ -245,6 +245,8 @@ def run_case(
             obs = canon_result(result, env)
         except Exception as e:  # raised out of run()
             obs = {"status": "failed", "values": [], "error": canon_error(e, env), "raised": True, "pause": None}
+        except asyncio.CancelledError as e:  # a BaseException escaping run(): an observation, not a harness failure
+            obs = {"status": "failed", "values": [], "error": "base:" + type(e).__name__, "raised": True, "pause": None}
     obs["warnings"] = sum(1 for w in wlist if "Requested outputs not found" in str(w.message))
     obs["calls"] = [[fid, [[k, enc_val(v)] for k, v in kw.items()]] for fid, kw in env.log[start_log:]]
     if rec is not None:
@@ -388,6 +390,9 @@ def map_case(
         except Exception as e:
             obs["results"] = []
             obs["raised"] = canon_error(e, env)
+        except asyncio.CancelledError as e:
+            obs["results"] = []
+            obs["raised"] = "base:" + type(e).__name__
     obs["calls"] = [[fid, [[k, enc_val(v)] for k, v in kw.items()]] for fid, kw in env.log]
     if rec is not None:
         obs["events"] = [canon_event(e) for e in rec.events]
